@@ -28,10 +28,16 @@ CORPUS = os.path.join(C.VERIF, "corpus", "regressions", "C01.jsonl")
 
 
 # ------------------------------------------------------------------ known findings
-# The four defects this check found (BYWEEKNO near year boundaries, WEEKLY+BYSETPOS first week,
-# WEEKLY+BYEASTER across the year end, year-1 BYWEEKNO ValueError) were repaired in /repo (commits 83f8e67,
-# 12b1f51, c760855, 049bb14); their witnesses run first on every check from corpus/regressions/C01.jsonl and
-# there is no open finding and no matcher: every difference is a VIOLATION.
+# Seven defects found by this check were repaired in /repo (see known_findings.json "fixed"); their witnesses run
+# first on every check from corpus/regressions/C01.jsonl.  OPEN findings of the audit round (2026-10-02), each with a
+# `_refuted` theorem in coq/rr/RRFindings.v and a matcher below that accepts EXACTLY its class -- and only when the
+# extracted model reproduces the implementation's observation (a change of behaviour is never swallowed):
+#   F-C01-last-week-9999      WEEKLY rule whose run reaches the WKST-week that contains 9999-12-31: ValueError from
+#                             date.fromordinal; with BYSETPOS the week's representable occurrences are lost
+#   F-C01-year1-setpos-week   WEEKLY + BYSETPOS whose first week begins before 0001-01-01: positions counted from the
+#                             start instead of from the week's representable candidates
+#   F-C01-outofrange-typeerror  a member of the rule's own time unit outside its range: TypeError instead of ValueError
+#   F-C01-bymonthday-zero     BYMONTHDAY consisting of 0 only: no restriction applied, every day is yielded
 def _first_diff(a, b):
     """first instant at which two increasing sequences differ (the smaller of the two members)"""
     for x, y in zip(a, b):
@@ -52,7 +58,89 @@ def _payload_first_diff(p):
     return _first_diff(impl["items"], si)
 
 
-MATCHERS = {}
+def _model_reproduces(p):
+    impl, model = p.get("impl"), p.get("model")
+    return bool(impl) and bool(model) and model.get("status") != "F" and RC.same_obs(impl, model)
+
+
+def m_last_week_9999(p):
+    """WEEKLY; the real generator raised ValueError while iterating; the model raises at the same point; what was
+    yielded is a prefix of the specified sequence and every specified instant that is missing lies in the WKST-week
+    that contains 9999-12-31 (none missing = the plain variant: everything yielded, then ValueError)."""
+    if p.get("kind") != "spec":
+        return False
+    case, impl, spec = p.get("input") or {}, p.get("impl") or {}, p.get("spec") or {}
+    if case.get("freq") != 2 or impl.get("status") != "R" or impl.get("exn") != 1 or impl.get("phase") != 1:
+        return False
+    if not _model_reproduces(p):
+        return False
+    n = len(impl["items"])
+    if spec["items"][:n] != impl["items"]:
+        return False
+    lw = RC.last_week_start(case["wkst"]) * 86400
+    if any(x < lw for x in spec["items"][n:]):
+        return False
+    # the run must be able to reach that week at all: no UNTIL before it, and whatever was yielded ends no earlier
+    # than one interval before it
+    u = RC.until_wall(case)
+    if u is not None and u[0] * 86400 + u[1] < lw:
+        return False
+    return True
+
+
+def m_year1_setpos_week(p):
+    """WEEKLY + BYSETPOS, first WKST-week begins before 0001-01-01, the model reproduces the implementation and
+    the first difference to the specification lies in that first week (ordinals 1..6)."""
+    if p.get("kind") != "spec":
+        return False
+    case = p.get("input") or {}
+    if not RC.week_before_year1(case) or not _model_reproduces(p):
+        return False
+    fd = _payload_first_diff(p)
+    return fd is not None and fd < 8 * 86400
+
+
+OWN_UNIT = {4: ("byhour", 24), 5: ("byminute", 60), 6: ("bysecond", 60)}
+
+
+def m_outofrange_typeerror(p):
+    """sub-daily rule whose OWN unit's BY list has a member outside 0..base-1; TypeError (the None that
+    __mod_distance returns is unpacked) while iterating, reproduced by the model; nothing is lost: what was yielded
+    is the whole specified sequence."""
+    if p.get("kind") != "spec":
+        return False
+    case, impl, spec = p.get("input") or {}, p.get("impl") or {}, p.get("spec") or {}
+    if case.get("freq") not in OWN_UNIT:
+        return False
+    key, base = OWN_UNIT[case["freq"]]
+    if not any(not 0 <= v < base for v in (case.get(key) or [])):
+        return False
+    if impl.get("status") != "R" or impl.get("exn") != 3 or impl.get("phase") != 1:
+        return False
+    return _model_reproduces(p) and spec.get("items") == impl.get("items")
+
+
+def m_bymonthday_zero(p):
+    """BYMONTHDAY with no member other than 0 (the constructor drops 0 from both the positive and the negative
+    list and then applies no month-day restriction); the model reproduces the implementation."""
+    if p.get("kind") != "spec":
+        return False
+    case = p.get("input") or {}
+    v = case.get("bymonthday")
+    return bool(v) and all(x == 0 for x in v) and _model_reproduces(p)
+
+
+MATCHERS = {"last_week_9999": m_last_week_9999, "year1_setpos_week": m_year1_setpos_week,
+            "outofrange_typeerror": m_outofrange_typeerror, "bymonthday_zero": m_bymonthday_zero}
+
+# ------------------------------------------------------------------ soundness thresholds (fail closed)
+# fractions of the evaluated (resp. generated) cases of a run; beyond them the run FAILS with a non-concrete
+# violation "inconclusive budget exceeded": a class of inputs that is systematically too slow to be decided must
+# not pass silently.  Measured on this machine (16 cores shared with other builders): stall 0, model-inconclusive
+# ~1.0 %, spec-inconclusive ~0.9 %, domain-timeout < 0.01 %, oracle restarts ~0.4 %, skipped ~17 % (of which the
+# rules that never match beyond the relocation cap are the bulk).
+THRESHOLDS = {"stall": 0.002, "model_inconclusive": 0.04, "spec_inconclusive": 0.04, "domain_timeout": 0.002,
+              "oracle_restarts": 0.03, "skipped": 0.35, "dst_inconclusive": 0.25}
 
 
 # ------------------------------------------------------------------ streams
@@ -124,18 +212,29 @@ def process_chunk(job):
     """job = (kind, tag, payload).  Returns a summary dict with violations."""
     kind, tag, payload = job
     orc = RC.TimedOracle(ORACLE_EXE)
-    summ = {"n": 0, "skipped": 0, "model_inconclusive": 0, "spec_inconclusive": 0, "in_wf": 0, "in_family": 0,
+    summ = {"n": 0, "generated": 0, "skipped": 0, "model_inconclusive": 0, "spec_inconclusive": 0, "stall": 0,
+            "domain_timeout": 0, "in_wf": 0, "in_xwf": 0, "in_family": 0, "dst_n": 0, "dst_inconclusive": 0,
             "model_diff": 0, "spec_diff": 0, "violations": [], "hist": {}, "keys": [], "samples": [],
-            "relocated": {}}
+            "relocated": {}, "classes": {}}
+    budget = {"seen": 0, "relocated": 0}
 
     def bump(k, v=1):
         summ["hist"][k] = summ["hist"].get(k, 0) + v
 
+    def cls(what, case):
+        """per-class breakdown of everything that was NOT decided: by outcome, FREQ and BY-parts"""
+        k = "%s|freq=%s|%s" % (what, case.get("freq"), "+".join(sorted(classify(case))) or "-")
+        summ["classes"][k] = summ["classes"].get(k, 0) + 1
+
     def handle(case, rnd):
+        summ["generated"] += 1
         if rnd is not None:
-            m = RC.prepare(case, orc, rnd)
+            budget["seen"] += 1
+            m, why = RC.prepare(case, orc, rnd, budget)
             if m is None:
                 summ["skipped"] += 1
+                bump("skipped:" + why)
+                cls("skipped:" + why, case)
                 return
         else:
             m = None
@@ -144,6 +243,9 @@ def process_chunk(job):
         impl, model, spec = r["impl"], r["model"], r["spec"]
         bump("freq=%d" % case["freq"])
         bump("start=%s" % case["start"]["kind"])
+        bump("domain=%s" % r["domain"])
+        if case.get("wkst_default"):
+            bump("wkst=default(calendar.firstweekday)")
         bump("term=%s" % ("count+until" if case.get("count") is not None and case.get("until") else
                           "count" if case.get("count") is not None else
                           "until" if case.get("until") else "first-N"))
@@ -165,10 +267,18 @@ def process_chunk(job):
         nontrivial = (len(classify(case)) > 0 or case["interval"] > 1) and \
                      (len(impl["items"]) >= 2 or impl["status"] == "R")
         summ["keys"].append((RC.case_key(case), nontrivial))
+        if r["domain"] == "domain-timeout":
+            summ["domain_timeout"] += 1
+            cls("domain-timeout", case)
+        if r["domain"] == "extended":
+            summ["in_xwf"] += 1
         if r["wf"]:
             summ["in_wf"] += 1
             if RC.in_proved_family(case):
                 summ["in_family"] += 1
+        if impl["status"] == "T":
+            summ["stall"] += 1
+            cls("stall", case)
         # whole seconds, start's tzinfo, strictly increasing
         if impl["extra"]:
             summ["violations"].append(({"kind": "resolution/tzinfo", "input": case, "impl": impl,
@@ -180,16 +290,21 @@ def process_chunk(job):
         sv = r["spec_verdict"]
         if sv == "inconclusive":
             summ["spec_inconclusive"] += 1
+            cls("spec-inconclusive", case)
+            sv = None
+        if sv == "stall":
             sv = None
         if sv:
             summ["spec_diff"] += 1
             summ["violations"].append(({"kind": "spec", "what": "implementation differs from the executable "
                                         "specification: " + sv, "input": case, "impl": impl, "spec": spec,
-                                        "model": model,
+                                        "model": model, "domain": r["domain"],
                                         "first_difference": RC.fmt_inst(_payload_first_diff(
                                             {"impl": impl, "spec": spec}) or 0)}, True))
         if r["model_agrees"] is None:
-            summ["model_inconclusive"] += 1
+            if impl["status"] != "T":
+                summ["model_inconclusive"] += 1
+                cls("model-inconclusive", case)
         elif r["model_agrees"] is False:
             summ["model_diff"] += 1
             if not sv:
@@ -202,11 +317,32 @@ def process_chunk(job):
                 RC.fmt_inst(x) for x in impl["items"][:4]], "n": len(impl["items"])},
                 "model_agrees": r["model_agrees"], "spec_verdict": r["spec_verdict"] or "agree"})
 
+    def handle_dst(case):
+        summ["generated"] += 1
+        v = RC.evaluate_dst(case, orc)
+        summ["dst_n"] += 1
+        bump("class=dst-zone-start+utc-until")
+        if v in ("inconclusive", "stall"):
+            summ["dst_inconclusive"] += 1
+            cls("dst-" + v, case)
+        elif v is not None:
+            what, expected, got = v
+            summ["spec_diff"] += 1
+            summ["violations"].append(({"kind": "dst-until", "what": "DST-zone start with UTC UNTIL: " + what,
+                                        "input": case, "expected_wall": [RC.fmt_inst(x) for x in expected[:60]],
+                                        "got_wall": [RC.fmt_inst(x) for x in got[:60]]}, True))
+
     try:
         if kind == "random":
             n, malformed = payload
             for case, rnd in stream_random(tag, n, malformed):
                 handle(case, rnd)
+        elif kind == "dst":
+            rnd = C.rng("C01/%s" % tag)
+            for _ in range(payload):
+                case = RC.dst_case(rnd)
+                if case is not None:
+                    handle_dst(case)
         else:
             for case in payload:
                 handle(case, None)
@@ -238,7 +374,13 @@ def replay(path):
             continue
         print("%-9s phase=%s status=%s exn=%s n=%d %s" % (name, x["phase"], x["status"], x["exn"],
                                                           len(x["items"]), [RC.fmt_inst(t) for t in x["items"][:60]]))
-    print("model_agrees_with_impl", r["model_agrees"], " spec_verdict", r["spec_verdict"] or "agree")
+    print("domain", r["domain"], " model_agrees_with_impl", r["model_agrees"], " spec_verdict",
+          r["spec_verdict"] or "agree")
+    p = {"kind": "spec", "input": case, "impl": r["impl"], "spec": r["spec"], "model": r["model"]}
+    hits = [k for k, m in MATCHERS.items() if r["spec_verdict"] and r["spec"] is not None and m(p)]
+    if hits:
+        print("matches open finding(s):", hits)
+    print("accepted outcomes:", RC.TOLERANCE_TEXT)
     return 0
 
 
@@ -293,15 +435,19 @@ def main():
         jobs.append(("random", "rand/%s/%d" % (tier, k), (min(per, n_rand - k), False)))
     for k in range(0, n_mal, per):
         jobs.append(("random", "malformed/%s/%d" % (tier, k), (min(per, n_mal - k), True)))
+    n_dst = 200 if quick else 4000
+    for k in range(0, n_dst, 100 if quick else 400):
+        jobs.append(("dst", "dst/%s/%d" % (tier, k), min(100 if quick else 400, n_dst - k)))
     ex1 = exhaustive_weekno_cases(tier)
     ex2 = exhaustive_nth_weekday_cases(tier)
     for name, lst in (("weekno", ex1), ("nthweekday", ex2)):
         for k in range(0, len(lst), 400):
             jobs.append(("list", "exh-%s/%d" % (name, k), lst[k:k + 400]))
 
-    total = {"n": 0, "skipped": 0, "model_inconclusive": 0, "spec_inconclusive": 0, "in_wf": 0, "in_family": 0,
+    total = {"n": 0, "generated": 0, "skipped": 0, "model_inconclusive": 0, "spec_inconclusive": 0, "stall": 0,
+             "domain_timeout": 0, "in_wf": 0, "in_xwf": 0, "in_family": 0, "dst_n": 0, "dst_inconclusive": 0,
              "model_diff": 0, "spec_diff": 0, "oracle_restarts": 0}
-    hist, keys, samples, relocated = {}, {}, [], {}
+    hist, keys, samples, relocated, classes = {}, {}, [], {}, {}
     if have_oracle:
         with multiprocessing.Pool(nproc) as pool:
             for summ in pool.imap_unordered(process_chunk, jobs):
@@ -311,6 +457,8 @@ def main():
                     hist[k] = hist.get(k, 0) + v
                 for k, v in summ["relocated"].items():
                     relocated[k] = relocated.get(k, 0) + v
+                for k, v in summ["classes"].items():
+                    classes[k] = classes.get(k, 0) + v
                 for key, nt in summ["keys"]:
                     keys[key] = keys.get(key, False) or nt
                 samples += summ["samples"]
@@ -319,6 +467,21 @@ def main():
     else:
         verdict.violation({"kind": "no oracle", "what": "bin/oracle_rr could not be built", "input": None,
                            "log_tail": (build_err.log if build_err else "")[-2000:]}, concrete=False)
+
+    # ---- soundness budget: undecided cases must stay below the stated fractions, else the run fails closed
+    ev = max(total["n"], 1)
+    gen = max(total["generated"], 1)
+    fractions = {"stall": total["stall"] / ev, "model_inconclusive": total["model_inconclusive"] / ev,
+                 "spec_inconclusive": total["spec_inconclusive"] / max(total["in_wf"] + total["in_xwf"], 1),
+                 "domain_timeout": total["domain_timeout"] / ev, "oracle_restarts": total["oracle_restarts"] / ev,
+                 "skipped": total["skipped"] / gen,
+                 "dst_inconclusive": total["dst_inconclusive"] / max(total["dst_n"], 1)}
+    exceeded = {k: round(v, 5) for k, v in fractions.items() if v > THRESHOLDS[k]}
+    if have_oracle and exceeded:
+        worst = sorted(classes.items(), key=lambda kv: -kv[1])[:15]
+        verdict.violation({"kind": "inconclusive budget exceeded", "what": "too many cases were not decided: %s "
+                           "(thresholds %s)" % (exceeded, {k: THRESHOLDS[k] for k in exceeded}),
+                           "largest_undecided_classes": worst, "input": None}, concrete=False)
 
     if not props["ok"] and not verdict.violations:
         # props/C01.v is compiled top to bottom: the first theorem without a `Print Assumptions` block is the
@@ -350,6 +513,7 @@ def main():
         "samples": samples[:12],
         "input_distribution": dict(sorted(hist.items())),
         "streams": {"corpus": len(corpus), "random": n_rand, "malformed": n_mal,
+                    "dst_zone_start_with_utc_until": n_dst,
                     "exhaustive_byweekno(-53..53 x wkst 0..6 x year shapes)": len(ex1),
                     "exhaustive_weekday(n)": len(ex2)},
         "exhaustive": False,
@@ -359,7 +523,25 @@ def main():
                                   % (7 if quick else 28, "" if quick else "; WEEKLY and MONTHLY around the year end",
                                      " (subsampled in quick)" if quick else ""),
         "in_spec_domain": total["in_wf"],
-        "in_spec_domain_and_covered_by_a_loop_theorem": total["in_family"],
+        "in_extended_domain_only(never-matching time members, BYMONTHDAY 0)": total["in_xwf"],
+        "STATISTIC_in_spec_domain_and_rule_shape_covered_by_a_loop_theorem": total["in_family"],
+        "STATISTIC_note": "approximation from the rule alone (RC.in_proved_family): the theorems' bounds on the "
+                          "number of passes (cut-off last week of 9999, BYEASTER years) are approximated by the "
+                          "start year; cases relocated to year 9999 (see relocated_cases) are in the count when "
+                          "their FREQ is not WEEKLY; not a coverage claim",
+        "accepted_outcomes": RC.TOLERANCE_TEXT,
+        "undecided": {"generated": total["generated"], "evaluated": total["n"], "skipped": total["skipped"],
+                      "stall(impl silent for %ds)" % int(RC.IMPL_TIMEOUT): total["stall"],
+                      "model_inconclusive": total["model_inconclusive"],
+                      "spec_inconclusive": total["spec_inconclusive"],
+                      "domain_test_timeout": total["domain_timeout"],
+                      "dst_class_evaluated": total["dst_n"], "dst_class_inconclusive": total["dst_inconclusive"],
+                      "oracle_restarts": total["oracle_restarts"],
+                      "fractions": {k: round(v, 5) for k, v in fractions.items()},
+                      "thresholds(fail closed beyond)": THRESHOLDS,
+                      "relocation_cap": RC.RELOCATION_CAP,
+                      "by_class(outcome|freq|BY-parts), 40 largest": dict(sorted(classes.items(),
+                                                                                 key=lambda kv: -kv[1])[:40])},
         "model_vs_impl_disagreements": total["model_diff"],
         "spec_vs_impl_disagreements_incl_known": total["spec_diff"],
         "skipped_scan_unbounded": total["skipped"],
@@ -443,18 +625,37 @@ def main():
             "not_proved_correspondence_only": [
                 "rrule_iter_correct (model = spec for every rule in spec_wf): proved for the families above; NOT "
                 "proved: BYEASTER outside C19's year range 1583..4098 or under sub-daily FREQ (dateutil extension, "
-                "not RFC), "
-                "the cut-off last week of year 9999 (WEEKLY), BYWEEKNO members beyond +-53 (not RFC)",
-                "strictly increasing / no duplicates outside the two headline guards (checked on every yielded "
-                "sequence)",
-                "no IndexError / only ValueError outside coarse_guard (inside: C01_rrule_no_exception_partial; "
-                "otherwise proved per mask builder and for rebuild, observed exception classes are checked)"]},
+                "not RFC); BYWEEKNO members beyond +-53 (not RFC); WEEKLY passes that reach the week containing "
+                "9999-12-31 and WEEKLY+BYSETPOS whose first week begins before 0001-01-01 (both REFUTED: open "
+                "findings F-C01-last-week-9999, F-C01-year1-setpos-week)",
+                "the headline theorems compare the yielded sequence (fst) only; termination kind: never an exception "
+                "and one of COUNT/UNTIL/year-9999/limit/fuel under coarse_guard_all (C01_rrule_term_kinds_partial), a "
+                "finished run is complete (C01_rrule_complete_headline_partial); NOT stated: that some fuel ends "
+                "every run; no-exception / term kinds under the BYEASTER branch of full_guard",
+                "sub-daily FREQ: a raise happens only when the specification has nothing more, for ANY exception "
+                "class -- 'only ValueError' is not a theorem for iterate there (core lemmas: no TypeError inside "
+                "spec_wf); outside spec_wf the TypeError exists (open finding F-C01-outofrange-typeerror)",
+                "whole-second resolution and the start's tzinfo are true BY CONSTRUCTION of the model's instant type "
+                "(ordinal, second of day; tzinfo opaque): checked on every yielded value, not proved",
+                "tie model = code: rrule.__init__, __construct_byset, __mod_distance and all of _iterinfo are "
+                "TRANSLATED from the source and proved equal to the model (C01_gen_*); of _iter only the six filter "
+                "clauses, gate_one, the seven advance branches, one fix-day step and one __mod_distance step are "
+                "translated -- prologue, day-set fetch, BYSETPOS/poslist section, filter_loop, gate_list, step, run, "
+                "init_state are PINNED AS TEXT against a template (fail closed on edits, semantics by hand model + "
+                "differential run)"]},
         "refuted_theorems": [t for t in props["theorems"] if "refuted" in t],
+        "open_findings": {"F-C01-last-week-9999": "matcher last_week_9999", "F-C01-year1-setpos-week": "matcher "
+                          "year1_setpos_week", "F-C01-outofrange-typeerror": "matcher outofrange_typeerror",
+                          "F-C01-bymonthday-zero": "matcher bymonthday_zero",
+                          "rule": "each matcher accepts exactly its class AND requires that the extracted model "
+                                  "reproduces the implementation's observation; proposed patches in notes/rr.md"},
         "differential_only": ["BYEASTER outside C19's year range 1583..4098 or with sub-daily FREQ",
-                              "WEEKLY + BYSETPOS whose first week begins before 0001-01-01 (positions would count "
-                              "unrepresentable days): model vs implementation only",
-                              "rules outside spec_wf (empty BY-lists, BYMONTHDAY 0, out-of-range time parts): "
-                              "model vs implementation only"],
+                              "start in a DST zone with a UTC UNTIL: compared through the naive twin of the rule "
+                              "(model on the wall clock, cut at the UTC UNTIL by aware comparison), not modelled",
+                              "wkst not passed (calendar.firstweekday()): case class of the random stream",
+                              "dtstart=None (datetime.now()): NOT covered",
+                              "rules outside spec_xwf (empty BY lists, BYMONTH outside 1..12, BYSETPOS 0 / beyond "
+                              "+-366, tz-mix): model vs implementation only (ValueError paths of the constructor)"],
         "known_findings_hit": verdict.known_hits,
         "translator": translators or "all generators ran (see assumptions: gen files)",
     }
@@ -467,9 +668,12 @@ def main():
                       "gen/RrTables.v is a value dump of the live module tables (harness/gen_rr_tables.py)",
                       "easter() enters through gen/EasterGen.v (C19's regenerated model)",
                       "aware datetimes: UNTIL/dtstart comparisons are modelled on the start's wall clock "
-                      "(same tzinfo object or fixed offsets)",
-                      "datetime.now() default start and calendar.firstweekday() default wkst not modelled "
-                      "(harness always passes dtstart and wkst)"],
+                      "(same tzinfo object or fixed offsets); a DST-zone start with a UTC UNTIL is only tested, "
+                      "through the naive twin of the rule",
+                      "datetime.now() default start is not modelled and not tested; the calendar.firstweekday() "
+                      "default wkst is a case class of the random stream (the model gets calendar.firstweekday())",
+                      "_iter's prologue / poslist section / pass skeleton are pinned as text by gen_rr_iter.py, not "
+                      "translated: their semantics rest on the hand model RRIter.v and the differential run"],
                      len(verdict.violations))
     print("C01 %s: obligations %d/%d, %d cases (%d in spec domain, %d skipped), model-diff %d, spec-diff %d "
           "(known %s), %.1fs (build+props %.1fs)" % (tier, props["discharged"], props["obligations"], total["n"], total["in_wf"],
